@@ -66,14 +66,34 @@ def batches(rows, n=60000):
     return [rows[k:k + n] for k in range(0, len(rows), n)] or [[]]
 
 
-def replay(ctx, rows, cfgs, name):
+def replay(ctx, rows, cfgs, name, dec=1):
     """Spec -> implementation: inject each `from` state into the real market, apply the operation
     with the real code, record the events."""
     tin, cj, out = ctx.path(name + "-transitions.ndjson"), ctx.path(name + "-cfgs.json"), ctx.path(name + "-trace.ndjson")
     vlib.write_ndjson(tin, rows)
     json.dump(cfgs, open(cj, "w"))
-    ctx.run_bin("c04", ["replay", "--in", tin, "--cfgs", cj, "--out", out])
+    ctx.run_bin("c04", ["replay", "--in", tin, "--cfgs", cj, "--dec", dec, "--out", out])
     return out
+
+
+def replay_case(ctx, mon, classify):
+    """./check Cxx --replay FILE: re-execute the recorded failing operation (its pre-state is
+    injected; a round trip is regenerated from its deposit) on the current tree and judge it."""
+    rec = json.load(open(ctx.replay_file))
+    evs = rec["replay"]["events"]
+    e = evs[-1]
+    if e.get("rt") and len(evs) > 1:
+        e = evs[-2]
+    dec = 2 if "--dec 2" in rec["replay"].get("driver", "") else 1
+    row = {"from": e["pre"], "ci": 1, "pr": e["pr"], "op": e["op"], "side": e["side"], "a": e["a"], "b": e["b"]}
+    tr = replay(ctx, [row], [e["c"]], "replay-case", dec=dec)
+    ev, fails = validate(ctx, tr, mon, cfg="Trace_Market_d2" if dec == 2 else "Trace_Market")
+    for i, m in fails:
+        ctx.report(classify(ev, i, m), {"driver": "h-model c04 replay (recorded case)" + (" --dec 2" if dec == 2 else ""),
+                                        "events": ev[:i + 1]})
+    ctx.distinct += 2
+    ctx.cov["samples"] += ev[:2]
+    return ctx.finish("exploration", "re-execution of one recorded case", exhaustive=False)
 
 
 def random_trace(ctx, name, n, dec=1, seed_off=0):
